@@ -26,6 +26,10 @@ def rich_tables(variant):
     """(L, R, lvals, rvals): the same rows in two physical layouts."""
     lvals = ['a b c d e', 'a b', 'a  a b', '', None, ' ', 'c d', 'a b', 'e', 'b a c']
     rvals = ['b a', '', 'a b c', None, 'c', 'd c e', 'a a', ' ', 'e d c b a', '  ']
+    # the printed form of the missing marker as an ordinary string value (str(None) / str(nan))
+    lit = 'None' if variant == 0 else 'nan'
+    lvals[8] = lit
+    rvals[4] = lit
     if variant == 1:
         lvals = [NAN if v is None else v for v in lvals]
         rvals = [NAN if v is None else v for v in rvals]
@@ -48,7 +52,7 @@ def rich_tables(variant):
     return L, R, lvals, rvals
 
 
-ATTRS = [(None, None), (['x', 's'], ['y']), (['f', 'x_id', 'x', 'x'], ['t', 'y', 'y_id'])]
+ATTRS = [(None, None), (['x', 's'], ['y']), (['x', 'f', 'x_id', 'x', 'x'], ['t', 'y', 'y_id', 't'])]
 PREFIXES = [('l_', 'r_'), ('A.', '')]
 
 
